@@ -20,6 +20,14 @@ def cint(x, lo: int, hi: int) -> int:
     return hi - 1
 
 
+def cval(x, values):
+    """Concrete value of symbolic int x, known to be one of `values`."""
+    for v in values[:-1]:
+        if x == v:
+            return v
+    return values[-1]
+
+
 def cbool(b) -> bool:
     return True if b else False
 
